@@ -366,8 +366,9 @@ def escaper(facts):
     # write_str must go through write_char for every char
     ws = [x for x in facts.bodies if x.kind == "AssocFn" and x.name == "write_str" and x.impl_selfhead == "adt:dot::Escaper"]
     for x in ws:
-        via = any(last_seg(t["f"]["path"]) == "write_char" and "dot::Escaper" in (t["f"].get("self", "") + t["f"].get("resolved", "")) for _, t in x.calls())
-        raw = any(last_seg(t["f"]["path"]) == "write_str" for _, t in x.calls())
+        grp = facts.with_closures(x)      # the per-char call may sit in a closure (chars().try_for_each(|c| self.write_char(c)))
+        via = any(last_seg(t["f"]["path"]) == "write_char" and "dot::Escaper" in (t["f"].get("self", "") + t["f"].get("resolved", "")) for gb in grp for _, t in gb.calls())
+        raw = any(last_seg(t["f"]["path"]) == "write_str" for gb in grp for _, t in gb.calls())
         if via and not raw:
             r.ok(x.npath, "via-write_char", "write_str escapes char by char")
         else:
